@@ -625,11 +625,17 @@ impl<R: Reader> Dwarf<R> {
                 _ => {}
             }
         }
-        let range = low_pc.and_then(|begin| {
-            let end = size.map(|size| begin + size).or(high_pc);
-            // TODO: perhaps return an error if `end` is `None`
-            end.map(|end| Range { begin, end })
-        });
+        let range = match low_pc {
+            Some(begin) => {
+                let end = match size {
+                    Some(size) => Some(begin.checked_add(size).ok_or(Error::AddressOverflow)?),
+                    None => high_pc,
+                };
+                // TODO: perhaps return an error if `end` is `None`
+                end.map(|end| Range { begin, end })
+            }
+            None => None,
+        };
         Ok(RangeIter(RangeIterInner::Single(range)))
     }
 
